@@ -29,3 +29,42 @@ void h_push_lk(void) { HQ; HLK; cv_i64 n; q_push_lk(q, lk, n); __CPROVER_assert(
 #ifdef CV_HAS_q_kick_lk
 void h_kick_lk(void) { HQ; SUBT *s; HLK; q_kick_lk(q, s, lk); __CPROVER_assert(0, "SENTINEL reachable"); }
 #endif
+#ifdef CV_HAS_qw_subscribe_pos
+void h_q_subscribe_pos(void) { HQ; SUBT *s; cv_i64 pos; qw_subscribe_pos(q, s, pos); __CPROVER_assert(0, "SENTINEL reachable"); }
+#endif
+#ifdef CV_HAS_qw_subscribe_recent
+void h_q_subscribe_recent(void) { HQ; SUBT *s; qw_subscribe_recent(q, s); __CPROVER_assert(0, "SENTINEL reachable"); }
+#endif
+#ifdef CV_HAS_qw_subscribe_copy
+void h_q_subscribe_copy(void) { HQ; SUBT *s; cv_i64 h; qw_subscribe_copy(q, h, s); __CPROVER_assert(0, "SENTINEL reachable"); }
+#endif
+#ifdef CV_HAS_qw_advance
+void h_q_advance(void) { HQ; cv_i64 h; cv_i32 t; qw_advance(q, h, t); __CPROVER_assert(0, "SENTINEL reachable"); }
+#endif
+#ifdef CV_HAS_qw_advance_suspend
+void h_q_advance_suspend(void) { HQ; cv_i64 h; AWT *a; qw_advance_suspend(q, h, a); __CPROVER_assert(0, "SENTINEL reachable"); }
+#endif
+#ifdef CV_HAS_qw_leave
+void h_q_leave(void) { HQ; cv_i64 h; qw_leave(q, h); __CPROVER_assert(0, "SENTINEL reachable"); }
+#endif
+#ifdef CV_HAS_qw_get_value
+void h_q_get_value(void) { HQ; cv_i64 h; cv_i32 t; qw_get_value(q, h, t); __CPROVER_assert(0, "SENTINEL reachable"); }
+#endif
+#ifdef CV_HAS_qw_kick
+void h_q_kick(void) { HQ; SUBT *s; qw_kick(q, s); __CPROVER_assert(0, "SENTINEL reachable"); }
+#endif
+#ifdef CV_HAS_qw_position
+void h_q_position(void) { HQ; cv_i64 h; qw_position(q, h); __CPROVER_assert(0, "SENTINEL reachable"); }
+#endif
+#ifdef CV_HAS_qw_push_move
+void h_q_push_move(void) { HQ; cv_i32 *v; qw_push_move(q, v); __CPROVER_assert(0, "SENTINEL reachable"); }
+#endif
+#ifdef CV_HAS_qw_push_copy
+void h_q_push_copy(void) { HQ; cv_i32 *v; qw_push_copy(q, v); __CPROVER_assert(0, "SENTINEL reachable"); }
+#endif
+#ifdef CV_HAS_qw_push_range
+void h_q_push_range(void) { HQ; cv_i32 **b, **e; qw_push_range(q, b, e); __CPROVER_assert(0, "SENTINEL reachable"); }
+#endif
+#ifdef CV_HAS_qw_close
+void h_q_close(void) { HQ; qw_close(q); __CPROVER_assert(0, "SENTINEL reachable"); }
+#endif
